@@ -215,14 +215,33 @@ def entriesGreater (base : Key) (c : Nat) : Entries → List KV
   | .child l n r =>
     if c < l then iterEntries base (.child l n r) else entriesGreater base c r
 
+/-- the last pair of a list, as a list (`moveToRightMostKey` below the current position) -/
+def lastKV (l : List KV) : List KV :=
+  match l.getLast? with
+  | some kv => [kv]
+  | none => []
+
+/-- `moveToLeftInNextSubTrie`: leftmost key below the first greater label; when there is none the
+Go code appends the node's last label and calls `it.Next()`, which returns at once because
+`it.valid` is still false, and `Seek`'s `if !it.valid { it.moveToRightMostKey() }` then descends to
+the rightmost key below that last label: the LAST key of the node. -/
+def greaterOrLast (base : Key) (c : Nat) (all sub : Entries) : List KV :=
+  match entriesGreater base c sub with
+  | [] => lastKV (iterEntries base all)
+  | l => l
+
 mutual
-  /-- `Iterator.seek` below one node: (the returned flag, the pairs of this subtree from the
-  landing position on). An empty list = the iterator left the subtree through `Next()`. -/
+  /-- `Iterator.seek` + the `moveToRightMostKey` fallback of `Seek` below one node: (the returned
+  flag, the pairs of this subtree from the landing position on). -/
   def seekNode (path : Key) : Node → Key → Bool × List KV
     | .mk pfx es, key =>
       let base := path ++ pfx
       match keyCmp pfx (key.take pfx.length) with
-      | .lt => (false, [])                               -- prefixCmp < 0: level--, Next()
+      | .lt =>
+        -- prefixCmp < 0: `it.level--; it.Next()` (a no-op: `it.valid` is false), then
+        -- `moveToRightMostKey` from the parent's label: the last key below this node
+        -- (at level 0: `keyBuf` is empty, the last key of the trie)
+        (false, lastKV (iterEntries base es))
       | .gt => (false, iterEntries base es)              -- prefixCmp > 0: leftmost key below
       | .eq =>
         match key.drop pfx.length with
@@ -234,22 +253,23 @@ mutual
             if l == labelTerminator && !r.isNil then
               (match seekEntries base r c rest with
                | some x => x
-               | none => (false, entriesGreater base c r))
+               | none => (false, greaterOrLast base c (.leaf l suf v r) r))
             else
               (match seekEntries base (.leaf l suf v r) c rest with
                | some x => x
-               | none => (false, entriesGreater base c (.leaf l suf v r)))
+               | none => (false, greaterOrLast base c (.leaf l suf v r) (.leaf l suf v r)))
           | .child l n r =>
             if l == labelTerminator && !r.isNil then
               (match seekEntries base r c rest with
                | some x => x
-               | none => (false, entriesGreater base c r))
+               | none => (false, greaterOrLast base c (.child l n r) r))
             else
               (match seekEntries base (.child l n r) c rest with
                | some x => x
-               | none => (false, entriesGreater base c (.child l n r)))
-  /-- `labelVec.Search` hit: leaf → stay there, flag = `CheckSuffix`; child → descend, and
-  continue with the following labels when the subtree is left. `none` = label not found. -/
+               | none => (false, greaterOrLast base c (.child l n r) (.child l n r)))
+  /-- `labelVec.Search` hit: leaf → stay there (`moveToRightMostKey` only sets `valid`), flag =
+  `CheckSuffix`; child → descend, the following labels come after the subtree.
+  `none` = label not found. -/
   def seekEntries (base : Key) : Entries → Nat → Key → Option (Bool × List KV)
     | .nil, _, _ => none
     | .leaf l suf v r, c, rest =>
@@ -262,13 +282,9 @@ mutual
       else seekEntries base r c rest
 end
 
-/-- `Iterator.Seek(key)`: `seek`, then `if !it.valid { it.moveToRightMostKey() }` — when the
-iterator ran off the end it is put on the LAST key. Result: flag + pairs from the landing on. -/
-def seek (t : Node) (key : Key) : Bool × List KV :=
-  let (fp, xs) := seekNode [] t key
-  match xs with
-  | [] => (fp, match (iter t).getLast? with | some kv => [kv] | none => [])
-  | _ => (fp, xs)
+/-- `Iterator.Seek(key)`: flag + the pairs from the landing position on (what `Key()/Value()/
+Next()` enumerate afterwards). -/
+def seek (t : Node) (key : Key) : Bool × List KV := seekNode [] t key
 
 /-- `Seek` followed by the repair proposed in fixes/C20-seek-lower-bound.patch: step once more
 when the landing key is smaller than the probe. -/
